@@ -37,11 +37,11 @@ def fixed(name, width, read, doc=''):
 
 
 def r_uint(st, atoms):
-    return State.unpack_uint(list(atoms))
+    return st.from_bytes(list(atoms), False)
 
 
 def r_sint(st, atoms):
-    return State.unpack_sint(list(atoms))
+    return st.from_bytes(list(atoms), True)
 
 
 def r_bool(st, atoms):
